@@ -322,6 +322,27 @@ pub fn snapshot(db: &Db, probes: bool) -> Vec<String> {
     for i in &idx {
         out.push(format!("named-index {} on {}", txt(&i[0]), txt(&i[1])));
     }
+    // the predicate of every partial index, as the expression tree the engine's stored text parses to
+    let part = db.query("SELECT name, sql FROM sqlite_master WHERE type='index' AND sql IS NOT NULL ORDER BY name", &[]).map(|r| r.rows).unwrap_or_default();
+    for i in &part {
+        let sql = txt(&i[1]);
+        if let Ok(toks) = crate::lex::lex(crate::lex::Dialect::Sqlite, &sql) {
+            let mut depth = 0i32;
+            for t in &toks {
+                match &t.tok {
+                    crate::lex::Tok::Punct(p) if p == "(" => depth += 1,
+                    crate::lex::Tok::Punct(p) if p == ")" => depth -= 1,
+                    crate::lex::Tok::Word(w) if depth == 0 && w.eq_ignore_ascii_case("WHERE") => {
+                        let pred = &sql[t.end..];
+                        let tree = crate::exprparse::parse_expression(crate::lex::Dialect::Sqlite, pred).map(|e| crate::exprparse::print_full(&e.strip())).unwrap_or_else(|e| format!("unparsable: {e}"));
+                        out.push(format!("index-predicate {}: {}", txt(&i[0]), tree));
+                        break;
+                    }
+                    _ => {}
+                }
+            }
+        }
+    }
     out
 }
 
@@ -508,15 +529,17 @@ pub enum SOp {
     CreateUniqueIndexB,
     CreateIndexAIfNotExists,
     CreatePartialIndexA,
+    CreateUniquePartialIndexTwoPredicates,
+    CreatePartialIndexAnyGroup,
     CreateIndexADescB,
     DropIndexI1,
     DropIndexI2IfExists,
     DropTable,
     DropTableIfExists,
 }
-pub const SOPS: [SOp; 17] = [
+pub const SOPS: [SOp; 19] = [
     SOp::AddColumnInt, SOp::AddColumnTextNotNullDefault, SOp::AddColumnRealCheck, SOp::RenameColumnA, SOp::RenameColumnB, SOp::DropColumnA, SOp::DropColumnB, SOp::RenameTable, SOp::CreateIndexA,
-    SOp::CreateUniqueIndexB, SOp::CreateIndexAIfNotExists, SOp::CreatePartialIndexA, SOp::CreateIndexADescB, SOp::DropIndexI1, SOp::DropIndexI2IfExists, SOp::DropTable, SOp::DropTableIfExists,
+    SOp::CreateUniqueIndexB, SOp::CreateIndexAIfNotExists, SOp::CreatePartialIndexA, SOp::CreateUniquePartialIndexTwoPredicates, SOp::CreatePartialIndexAnyGroup, SOp::CreateIndexADescB, SOp::DropIndexI1, SOp::DropIndexI2IfExists, SOp::DropTable, SOp::DropTableIfExists,
 ];
 
 /// (sea-query rendering, reference rendering) of one follow-up statement; `tbl` is the current table name
@@ -535,6 +558,14 @@ fn sop_pair(op: SOp, tbl: &'static str) -> (Result<String, String>, String) {
         SOp::CreateUniqueIndexB => (catch(|| Index::create().unique().name("i2").table(a(tbl)).col(a("b")).to_string(SqliteQueryBuilder)), format!("CREATE UNIQUE INDEX \"i2\" ON {} (\"b\")", q(tbl))),
         SOp::CreateIndexAIfNotExists => (catch(|| Index::create().if_not_exists().name("i1").table(a(tbl)).col(a("a")).to_string(SqliteQueryBuilder)), format!("CREATE INDEX IF NOT EXISTS \"i1\" ON {} (\"a\")", q(tbl))),
         SOp::CreatePartialIndexA => (catch(|| Index::create().name("i3").table(a(tbl)).col(a("a")).and_where(Expr::col(a("a")).gt(5)).to_string(SqliteQueryBuilder)), format!("CREATE INDEX \"i3\" ON {} (\"a\") WHERE \"a\" > 5", q(tbl))),
+        SOp::CreateUniquePartialIndexTwoPredicates => (
+            catch(|| Index::create().unique().name("i5").table(a(tbl)).col(a("b")).and_where(Expr::col(a("a")).gt(5)).and_where(Expr::col(a("a")).lt(100)).to_string(SqliteQueryBuilder)),
+            format!("CREATE UNIQUE INDEX \"i5\" ON {} (\"b\") WHERE (\"a\" > 5) AND (\"a\" < 100)", q(tbl)),
+        ),
+        SOp::CreatePartialIndexAnyGroup => (
+            catch(|| Index::create().name("i6").table(a(tbl)).col(a("a")).cond_where(Cond::any().add(Expr::col(a("a")).lt(2)).add(Expr::col(a("b")).is_null())).and_where(Expr::col(a("a")).ne(7)).to_string(SqliteQueryBuilder)),
+            format!("CREATE INDEX \"i6\" ON {} (\"a\") WHERE ((\"a\" < 2) OR (\"b\" IS NULL)) AND (\"a\" <> 7)", q(tbl)),
+        ),
         SOp::CreateIndexADescB => (catch(|| Index::create().name("i4").table(a(tbl)).col((a("a"), IndexOrder::Desc)).col((a("b"), IndexOrder::Asc)).to_string(SqliteQueryBuilder)), format!("CREATE INDEX \"i4\" ON {} (\"a\" DESC, \"b\" ASC)", q(tbl))),
         SOp::DropIndexI1 => (catch(|| Index::drop().name("i1").table(a(tbl)).to_string(SqliteQueryBuilder)), "DROP INDEX \"i1\"".into()),
         SOp::DropIndexI2IfExists => (catch(|| Index::drop().if_exists().name("i2").table(a(tbl)).to_string(SqliteQueryBuilder)), "DROP INDEX IF EXISTS \"i2\"".into()),
